@@ -32,10 +32,37 @@ func main() {
 	}
 	r := vc.NewRand(vc.Seed())
 	digitClasses := []func(n int) []byte{
-		func(n int) []byte { b := make([]byte, n); for i := range b { b[i] = '0' }; return b },
-		func(n int) []byte { b := make([]byte, n); for i := range b { b[i] = '9' }; return b },
-		func(n int) []byte { b := make([]byte, n); for i := range b { b[i] = byte('0' + r.Intn(10)) }; return b },
-		func(n int) []byte { b := make([]byte, n); for i := range b { b[i] = byte('0' + r.Intn(10)) }; if n > 0 { b[0] = '0' }; return b },
+		func(n int) []byte {
+			b := make([]byte, n)
+			for i := range b {
+				b[i] = '0'
+			}
+			return b
+		},
+		func(n int) []byte {
+			b := make([]byte, n)
+			for i := range b {
+				b[i] = '9'
+			}
+			return b
+		},
+		func(n int) []byte {
+			b := make([]byte, n)
+			for i := range b {
+				b[i] = byte('0' + r.Intn(10))
+			}
+			return b
+		},
+		func(n int) []byte {
+			b := make([]byte, n)
+			for i := range b {
+				b[i] = byte('0' + r.Intn(10))
+			}
+			if n > 0 {
+				b[0] = '0'
+			}
+			return b
+		},
 	}
 	intruders := []byte{'-', '+', ' ', '_', 'x', 'e', '.', 0, 0xff, '/', ':', 'S'}
 	// shape sweep: every length 0..10, every final byte, digit classes, one intruder at every position
